@@ -796,6 +796,11 @@ def gen_table(rng: random.Random, kind: str, intensify: bool = False) -> dict:
     # parent column
     if id_kind == "int":
         enc = rng.choice(["-1", "-1", "nan", "none-obj", "empty-obj", "NA"])
+        if kind == "df" and enc in ("-1", "empty-obj") and n and rng.random() < 0.15:
+            # ids beyond 2**53 (hash-like / packed ids): exact in an int64 or object column, not in
+            # a float64 one — so only with the root encodings that keep the parent column exact
+            base = 2 ** 53 + rng.randrange(0, 1000)
+            ids = [base + k for k in rng.sample(range(0, 3 * n + 4), n)]
     elif id_kind in ("str", "str-int"):
         enc = rng.choice(["empty", "empty", "none", "-1str", "-1obj", "nan-obj"])
     else:
@@ -1113,6 +1118,10 @@ def gen_geff(rng: random.Random, intensify: bool = False) -> dict:
             enm[key] = pname
         if rng.random() < 0.3:
             eprops["unmapped_e"] = {"kind": "float", "values": [_float(rng) for _ in edges]}
+        if rng.random() < 0.3:
+            # two standard keys read from ONE stored property (allowed for nodes and for edges)
+            k0 = next(iter(enm))
+            enm["copy_of_" + k0] = enm[k0]
         case["eprops"], case["enm"] = eprops, enm
     case["_tags"] = {"ids": "int", "enc": "geff", "renamed_ids": False, "nd": nd, "n": n,
                      "edge_props": len(case.get("eprops", {})),
